@@ -69,7 +69,7 @@ func prefix(c *evid.Case, env *qsim.Env, seed int64) (*qsim.Cluster, qsim.Config
 	cl := qsim.NewCluster(env, rng, cfg)
 	cl.StartAll()
 	if directed {
-		qrun.SplitPrepare(cl, nil)
+		qrun.SplitPrepareUpTo(cl, nil, rng.Intn(3) == 0)
 	}
 	if decidedFew {
 		decidedFewPrefix(cl)
@@ -92,6 +92,10 @@ func preparedValues(cl *qsim.Cluster) map[string]bool {
 
 // continuation plays the canonical timely continuation with a delivery ordering variant; returns the number of rounds
 // used after r0 and whether all correct operators decided.
+func deliverTimely(cl *qsim.Cluster, f *qsim.Flight) {
+	_ = cl.Deliver(cl.Nodes[f.To-1], f.Msg, false)
+}
+
 func continuation(cl *qsim.Cluster, variant int, budget int) (bool, specqbft.Round, []string) {
 	var log []string
 	// Byzantine operators fall silent: their in-flight messages are never delivered
@@ -120,7 +124,7 @@ func continuation(cl *qsim.Cluster, variant int, budget int) (bool, specqbft.Rou
 				for len(cl.Pool) > 0 {
 					f := cl.Pool[0]
 					cl.Pool = cl.Pool[1:]
-					_ = cl.Deliver(cl.Nodes[f.To-1], f.Msg, false)
+					deliverTimely(cl, f)
 				}
 				continue
 			}
@@ -137,7 +141,7 @@ func continuation(cl *qsim.Cluster, variant int, budget int) (bool, specqbft.Rou
 					held = append(held, f)
 					continue
 				}
-				_ = cl.Deliver(cl.Nodes[f.To-1], f.Msg, false)
+				deliverTimely(cl, f)
 			}
 		}
 	}
@@ -255,6 +259,7 @@ func runContinuation(c *evid.Case) {
 	budget := cl.F + 3
 	ok, used, log0 := continuation(cl, 0, budget)
 	c.Count("continuations_played", 1)
+	c.Count("correct_leader_proposals_refused_by_correct_operators", int64(len(cl.Refusals)))
 	if ok {
 		c.Count("continuation_all_decided", 1)
 		c.Max("max_rounds_needed_after_prefix", int64(used))
@@ -281,7 +286,12 @@ func runContinuation(c *evid.Case) {
 			// the end of the first continuation shows that mechanism: the round-changes of the undecided correct operators were
 			// ACCEPTED by each other (so the stall is not caused by refused or missing round-changes)
 			accepted, distinctPrepared := roundChangesAccepted(cl)
-			if !accepted {
+			if len(cl.Refusals) > 0 {
+				// whatever the final state looks like: somewhere in this execution (prefix or continuation) a correct operator turned
+				// a correct leader's proposal down
+				sig += "/correct-operator-refused-a-correct-leaders-proposal"
+				log0 = append(log0, cl.Refusals...)
+			} else if !accepted {
 				sig += "/round-changes-of-correct-operators-not-accepted"
 			} else if distinctPrepared { // possibly reached only during the continuation (a value prepared after the cut)
 				sig = "correct-operators-prepared-on-distinct-values"
@@ -338,7 +348,7 @@ func runSync(c *evid.Case) {
 			for len(cl.Pool) > 0 {
 				f := cl.Pool[0]
 				cl.Pool = cl.Pool[1:]
-				_ = cl.Deliver(cl.Nodes[f.To-1], f.Msg, false)
+				deliverTimely(cl, f)
 			}
 			ld := qsim.Leader(n, h, 1)
 			want := cl.Nodes[ld-1].Start
